@@ -56,6 +56,7 @@ fn spec_with(slot: &str, text: &str) -> CmdSpec {
     let mut f = ArgSpec::flag("flag", Some('f'), Some(&name("flag", 'f')));
     f.help = t("flag_help");
     f.visible_aliases.push(name("flagalias", 'g'));
+    f.visible_short_aliases.push('F');
     let mut o = ArgSpec::opt("opt", Some('o'), Some(&name("opt", 'o')));
     o.help = t("opt_help");
     o.visible_short_aliases.push('O');
@@ -68,6 +69,8 @@ fn spec_with(slot: &str, text: &str) -> CmdSpec {
     s.visible_aliases.push("subalias".into());
     let mut sf = ArgSpec::flag("subflag", None, Some(&name("subflag", 's')));
     sf.help = t("flag_help");
+    sf.short = Some('s');
+    sf.visible_short_aliases.push('S');
     s.args.push(sf);
     c.args = vec![f, o, p];
     c.subs.push(s);
